@@ -22,6 +22,13 @@
 (*      second-level transactions are CanonHtlcTx; every submitted          *)
 (*      transaction is the mutation the model asked for; abstract equality  *)
 (*      coincides with byte equality.                                       *)
+(*   5. histories with a RESTART (CommitTx!Histories): the harness restored *)
+(*      the signer from a copy of its store where the history says          *)
+(*      (B.restart = "ok", checked as part of the concretisation) and made  *)
+(*      the judged requests on the restored signer; the monitors of 1 are   *)
+(*      applied to them UNCHANGED (CommitTx!Restart is the identity on what *)
+(*      the entry points read), with the signatures verified against the    *)
+(*      funding amount CommitTx!SighashAmount (B.amt).                      *)
 (* IOEnv: CT_LOG (ndjson), CT_REPORT (json), CT_VOUT_TRUNC (behaviour switch *)
 (* of the code-shaped model).                                               *)
 (***************************************************************************)
@@ -49,6 +56,11 @@ ConcBase(B) ==
   ELSE
   LET ps == HtlcPosSeq(B.canon.outs) IN
   /\ B.reached
+  /\ B.hist \in Histories
+  \* the signer was restarted exactly where the history says, and the restart succeeded
+  /\ B.restart = (IF RestartHist(B.hist) THEN "ok" ELSE "none")
+  \* the funding amount the harness verified the commitment signatures with
+  /\ B.amt = SighashAmount(B.S)
   /\ IsCanon(B.canon, B.S, B.C, {})
   \* LDK's OutPoint cannot hold a wide output index: no cross-build for such a setup
   /\ WideVout(B.S) \/
@@ -70,7 +82,7 @@ BaseExpected(B) == IF SetupTag(B.S, SW) # "ok" THEN "nosetup"
                    ELSE StepSem(B.S, B.C, RangeOf(B.canon.outs), SW).tag
 
 \* raw requests
-SemOk(B) == IF B.hist = "retry" THEN B.sem2.ok ELSE B.sem.ok
+SemOk(B) == IF RetryHist(B.hist) THEN B.sem2.ok ELSE B.sem.ok
 IsCanonReq(rec) == rec.m.k = "none" /\ rec.m2.k = "none" /\ rec.w.k = "none"
 RawJudge(i) ==
   LET rec  == Log[i]
@@ -82,7 +94,7 @@ RawJudge(i) ==
                \cup (IF rec.resp.ok /\ ~must /\ ~rec.resp.sub THEN {"raw_signature_target"} ELSE {})
                \cup (IF Bad_RawEquiv(SemOk(B), IsCanonReq(rec), rec.resp) THEN {"raw_not_equivalent"} ELSE {}) IN
   [i |-> i, rules |-> rules, ok |-> rec.resp.ok, bad |-> bad,
-   tag |-> StepRaw(rec.tx, rec.ws, B.S, B.C, pool, B.hist = "retry" /\ B.sem.ok, SW).tag,
+   tag |-> StepRaw(rec.tx, rec.ws, SignerAt(B.S, NoRec, B.hist).S, B.C, pool, RetryHist(B.hist) /\ B.sem.ok, SW).tag,
    conc |-> /\ IsMutant(rec.tx, B.canon, rec.m, rec.m2, B.S, B.C)
             /\ rec.ws = WsFor(rec.tx, B.canon, rec.w)
             /\ rec.bytes_eq_canon = (TxBV(rec.tx) = TxBV(B.canon))]
@@ -160,6 +172,14 @@ Report ==
     raw          |-> Cardinality(RawIdx),
     sem_ok       |-> Cardinality({i \in BaseIdx : Log[i].sem.ok}),
     sem_retry_ok |-> Cardinality({i \in BaseIdx : Log[i].sem2.ok}),
+    \* bases whose judged requests were made on a restored signer; how many of them were answered with a
+    \* signature before / after the restart, and raw / retry requests granted by a restored signer
+    restart_bases |-> Cardinality({i \in BaseIdx : Log[i].setup_ok /\ RestartHist(Log[i].hist)}),
+    restart_sem_ok |-> Cardinality({i \in BaseIdx : Log[i].setup_ok /\ Log[i].hist = "restart" /\ Log[i].sem.ok}),
+    restart_sem_retry_ok |-> Cardinality({i \in BaseIdx : Log[i].setup_ok /\ Log[i].hist = "restart_retry" /\ Log[i].sem2.ok}),
+    restart_htlc_sigs |-> Cardinality({i \in BaseIdx : Log[i].setup_ok /\ Log[i].hist = "restart" /\ Log[i].sem.ok /\ Len(Log[i].sem.hs) > 0}),
+    restart_raw_granted |-> Cardinality({j \in Judged : j.ok /\ BaseOf(Log[j.i]).setup_ok /\ RestartHist(BaseOf(Log[j.i]).hist)}),
+    restart_retries_accepted |-> Cardinality({j \in RetryJudged : j.ok /\ RestartHist(BaseOf(Log[j.i]).hist)}),
     htlc_sigs    |-> LET RECURSIVE Sum(_) Sum(S) == IF S = {} THEN 0 ELSE LET x == CHOOSE y \in S : TRUE IN Len(Log[x].sem.hs) + Sum(S \ {x})
                      IN Sum(BaseIdx),
     granted      |-> Cardinality(Granted),
